@@ -93,14 +93,14 @@ var realComponents = []string{"github.com/zclconf/go-cty/cty (instrumented copy 
 	"cty/json", "cty/msgpack", "cty/gocty", "cty/ctystrings", "github.com/vmihailenco/msgpack/v5", "github.com/apparentlymart/go-textseg/v15", "golang.org/x/text/unicode/norm", "Go standard library"}
 
 var props = map[string]*propCfg{
-	"C20": {race: true, quickRuns: 1 << 40, quickBudget: 45 * time.Second, thorBudget: 10 * time.Minute, thorRuns: 1 << 40, level: "exploration", procShrink: 60,
+	"C20": {race: true, quickRuns: 1 << 40, quickBudget: 42 * time.Second, thorBudget: 10 * time.Minute, thorRuns: 1 << 40, level: "exploration", procShrink: 60,
 		rule: "one evaluation = one simulated world: a shared pool of 6..40 generated values (all kinds, marks, refined unknowns, capsules, collision-prone sets), types, shared ValueSets/PathSets and paths; 2..16 caller tasks each running a seeded history of 3..35 operations drawn from a per-run random subset of ~80 operations over the public API (operation methods, accessors followed by mutation of the returned Go data, constructors followed by mutation of the data passed in - the fresh result frozen before the mutation and compared after it -, ValueSet/PathSet copy-and-diverge life cycles, refinement builders reused after NewValue, Walk/Transform/Path.Apply, convert, conversions obtained once and shared by all tasks, stdlib function calls incl. a type-directed call table over every stdlib function, JSON/msgpack/gocty round trips). The same programs are executed five times: sequentially (fingerprints of every pre-existing object re-checked after every operation), sequentially again (purity), sequentially under another map-iteration order, and twice concurrently under the seeded baton scheduler (random / PCT / round-robin / call-granular strategies) with the Go race detector watching. Every run is non-trivial (it fires aliasing faults and context switches); distinct = distinct (tasks, operations, pool size, multiset of fired fault kinds).",
 		assumptions: []string{"race detection is the Go race detector's happens-before analysis with history_size=7; sync.Pool and math/big's divisor-table lock are replaced in the simulation build only so that they do not order unrelated tasks (DESIGN.md §3.3)",
 			"data whose ownership the documentation passes to the library (NumberVal's big.Float, Tuple/Object type arguments, a path placed in a PathSet) is never mutated by the harness",
 			"error and panic texts and GoString of values with several marks may list members in map order; they are compared by class only",
 			"tasks mutate only helper objects they own (copies of shared ValueSets/PathSets); the shared pool is built before the tasks start"},
 		stubs: []string{"caller tasks (seeded operation histories)", "scheduler choice (seeded baton scheduler replaces the Go scheduler's choice of who runs)", "sync.Pool and math/big cacheBase10 lock (overlay, simulation build only)", "capsule operations"}},
-	"C03": {quickRuns: 1 << 40, quickBudget: 40 * time.Second, thorBudget: 9 * time.Minute, thorRuns: 1 << 40, level: "exploration",
+	"C03": {quickRuns: 1 << 40, quickBudget: 35 * time.Second, thorBudget: 9 * time.Minute, thorRuns: 1 << 40, level: "exploration",
 		rule: "one evaluation = one simulated run: either (sets) a seeded history of 8..57 steps over up to 4 ValueSets and 4 set values of one element type (15 element types: numbers, strings, bool, lists, tuples, objects, maps, sets, two capsule types) drawn from a collision-biased population of 4..23 members (the same member re-represented at other precisions / spellings, nulls, refined unknowns) - Add, Remove, Has, Copy and diverge, Union/Intersection/Subtract/SymmetricDifference, SetVal of a drawn multiset in two orders, SetValFromValueSet, AsValueSet, HasElement, Length, stdlib set functions, re-adding in a shuffled order - with every touched set compared after every step with a model set keyed by the checker's own canonical key (exact integer or shortest decimal, NFC, member-wise, sets as sets; unknown-containing members never equal), plus the equivalence laws over sampled pairs and triples of the population; or (laws) pairs and triples over a mixed-type population with marks, nulls, unknowns and dynamic types. Every run is non-trivial; distinct = distinct (element type, population size, multiset of fired fault kinds).",
 		assumptions: []string{"number equality is the documented one: exact integer value, else the shortest decimal rendering (CHANGELOG 1.9.0); which of two unequal numbers is smaller may be decided on exact binary values or on those renderings",
 			"a member containing an unknown at any depth is never equal to anything, itself included: every Add of it is kept, no Remove or Has matches it",
